@@ -415,13 +415,27 @@ def emit(name, seed, nq, ne):
             body += 'row.id = Some(sid); '
         for i, (c, k) in enumerate(sub):
             body += 'row.cols.push((%d, v%d.observe(salt))); ' % (c, i)
-        w('fn en%d(w: &mut W, ids: &[Id], salt: Option<u32>) -> EntriesOut {' % ei)
+        inames = ['iv%d' % i for i in range(len(views))]
+        ipat = 'result!(%s)' % ', '.join(inames)
+        ibody = 'let mut irow = QRow::default(); '
+        for i, (c, k) in enumerate(views):
+            ibody += 'irow.cols.push((%d, iv%d.observe(None))); ' % (c, i)
+        probe = 'out.push(match result.entries.entry(ids[next]) { None => None, Some(mut e) => Some(match e.query(Query::<%s, %s>::new()) { None => None, Some(%s) => { %s Some(row) } }) }); next += 1;' % (
+            views_ty(sub, sub_id), flt_ty(f, ''), rpat, body)
+        w('fn en%d(w: &mut W, ids: &[Id], salt: Option<u32>, interleave: bool) -> (EntriesOut, Option<Vec<QRow>>) {' % ei)
         w('    let mut result = tracked(|| w.query(Query::<%s, filter::None, Views!(), %s>::new()));' % (
             views_ty(views, None), views_ty(ev, 0 if ev_id else None)))
         w('    let mut out = Vec::new();')
-        w('    for id in ids { out.push(match result.entries.entry(*id) { None => None, Some(mut e) => Some(match e.query(Query::<%s, %s>::new()) { None => None, Some(%s) => { %s Some(row) } }) }); }' % (
-            views_ty(sub, sub_id), flt_ty(f, ''), rpat, body))
-        w('    out')
+        w('    let mut rows = None;')
+        w('    let mut next = 0usize;')
+        w('    if interleave {')
+        w('        // iterate the query while probing entries in between: views and entry views are in use together')
+        w('        let mut r = Vec::new();')
+        w('        for %s in result.iter { %s r.push(irow); if next < ids.len() { %s } }' % (ipat, ibody, probe))
+        w('        rows = Some(r);')
+        w('    }')
+        w('    while next < ids.len() { %s }' % probe)
+        w('    (out, rows)')
         w('}')
 
     # ---------------- parallel queries (C09): a subset of the query pool through par_query / ParSystem
@@ -620,7 +634,7 @@ def emit(name, seed, nq, ne):
     w('    fn par_queries() -> &\'static [usize] { PAR_QUERIES }')
     w('    fn run_par_query(w: &mut W, q: usize, term: PTerm, salt: Option<u32>, pool: &rayon::ThreadPool) -> ParOut { match q { %s _ => unreachable!() } }' % ' '.join('%d => pq%d(w, term, salt, pool),' % (i, i) for i in pick))
     w('    fn entry_metas() -> &\'static [EntryMeta] { ENTRIES }')
-    w('    fn entries_query(w: &mut W, e: usize, ids: &[Id], salt: Option<u32>) -> EntriesOut { match e { %s _ => unreachable!() } }' % ' '.join('%d => en%d(w, ids, salt),' % (i, i) for i in range(len(entries))))
+    w('    fn entries_query(w: &mut W, e: usize, ids: &[Id], salt: Option<u32>, interleave: bool) -> (EntriesOut, Option<Vec<QRow>>) { match e { %s _ => unreachable!() } }' % ' '.join('%d => en%d(w, ids, salt, interleave),' % (i, i) for i in range(len(entries))))
     w('}')
     src = '\n'.join(o) + '\n'
     digest = hashlib.sha256(src.encode()).hexdigest()[:16]
